@@ -73,7 +73,7 @@ def run(ctx, chk):
         n_q = [0]
 
         def is_read(nm):
-            return 'clock_gettime' in nm
+            return common.is_clock_read(nm)
 
         def cfg_ok(body, depth=0):
             reads, queries = [], []
